@@ -7,7 +7,7 @@ import pickle
 
 from ..gen import text_classes, is_trivial_text
 from ..obs import guarded, is_exc, obs, obs_diff, jsonable, slots, twin_from_slots
-from ..ops import OpGen, apply, op_name, walk_texts
+from ..ops import OpGen, apply, op_name, walk_texts, touch_all
 
 LEVEL = "exploration"
 RULE = (
@@ -94,7 +94,7 @@ def run(ctx):
 
     if ctx.part == "replay":
         c = ctx.params["replay"]["case"]
-        u = guarded(apply, c["op"])
+        u = guarded(apply, c["op"], touch_all if c.get("used_intermediates") else None)
         if is_exc(u):
             ctx.notes["replay"] = repr(u)
             return
@@ -117,10 +117,11 @@ def run(ctx):
             check_copies(ctx, u, {"op": bop}, ("shape", "enc" if bop.get("encoded") else "auto", text_classes(bop["s"])))
             for m, args in mods:
                 op = {"op": "mod", "base": bop, "m": m, "args": args}
-                v = guarded(apply, op)
-                if is_exc(v):
-                    continue
-                check_copies(ctx, v, {"op": op}, ("shape-mod", m, "enc" if bop.get("encoded") else "auto"))
+                for touched in (False, True):
+                    v = guarded(apply, op, touch_all if touched else None)
+                    if is_exc(v):
+                        continue
+                    check_copies(ctx, v, {"op": op, "used_intermediates": touched}, ("shape-mod", m, "enc" if bop.get("encoded") else "auto", touched))
             for op in ({"op": "prop", "base": bop, "m": "parent"}, {"op": "div", "base": bop, "arg": "c d"}, {"op": "join", "base": bop, "ref": {"op": "ctor", "s": "../r?s#t"}},
                        {"op": "join", "base": {"op": "ctor", "s": "http://b/c/d"}, "ref": bop}):
                 v = guarded(apply, op)
@@ -138,16 +139,19 @@ def run(ctx):
                 leaf = leaf["base"]
             if leaf["op"] == "ctor":
                 leaf["encoded"] = True
-        u = guarded(apply, op)
+        touched = k % 2 == 0
+        u = guarded(apply, op, touch_all if touched else None)
         if is_exc(u):
             ctx.count("rejected")
             continue
         if not hasattr(u, "raw_path"):
             continue
+        if touched:
+            ctx.count("trees_with_used_intermediates")
         texts = walk_texts(op)
         triv = all(is_trivial_text(t) for t in texts)
         cls = "".join(sorted(set("".join(text_classes(t) for t in texts[:6]))))[:24]
-        check_copies(ctx, u, {"op": op}, None if triv else (op_name(op), cls))
+        check_copies(ctx, u, {"op": op, "used_intermediates": touched}, None if triv else (op_name(op), cls, touched))
         if k % 1009 == 0:
             ctx.sample({"op": op})
 
